@@ -100,6 +100,44 @@ def closer_sweep(chk, repo, it, tier):
     progs += [op + x + cl for op, (_, cl) in [
         (o, (None, v[1])) for o, v in info.items()] for x in ("→", "←", "1→")]
     progs = list(dict.fromkeys(progs))
+    # multi-character texts the lexer / parser mention (new digraph syntax):
+    # in front of bracketed bodies, and as an opener of their own when they
+    # end in an opener character
+    atoms = []
+    for modname in ("lexer", "parse"):
+        for n_ in ast.walk(repo.mod(modname).tree):
+            if isinstance(n_, ast.Constant) and isinstance(n_.value, str) \
+                    and 2 <= len(n_.value) <= 3 and not n_.value.isalnum() \
+                    and not n_.value.isspace() and n_.value not in atoms:
+                atoms.append(n_.value)
+    atoms = atoms[:30]
+    # digraph heads (one GENERAL token with whatever follows) in front of
+    # every opener: the places new two-character syntax can be given
+    singles = []
+    for n_ in ast.walk(repo.mod("lexer").tree):
+        if isinstance(n_, ast.Constant) and isinstance(n_.value, str) \
+                and len(n_.value) <= 8:
+            singles += [c for c in n_.value if c not in singles]
+    for h_ in singles:
+        it.steps = 0
+        try:
+            ts_ = list(tokenise(h_ + "Ǎ"))
+        except (PRaise, StopIteration):
+            continue
+        if len(ts_) == 1 and ts_[0].d["value"] == h_ + "Ǎ" \
+                and ts_[0].d["name"].name == "GENERAL":
+            atoms += [h_ + op_ for op_ in info if h_ + op_ not in atoms]
+    bracket_bodies = ["[a|b]", "[a|[b|c]]", "[a]", "(a|1)", "{1}", "⟨1|2⟩"]
+    atom_progs = []
+    for a_ in atoms:
+        atom_progs += [a_ + q for q in bracket_bodies]
+        if a_[-1] in info:
+            cl_ = info[a_[-1]][1]
+            atom_progs += [a_ + b_ + cl_ for b_ in (
+                "", "a", "ab|cd", "ab|cd|", "a|" + a_ + "b" + cl_)]
+    chk.unit("programs built around multi-character syntax constants",
+             len(atom_progs))
+    progs += [q for q in atom_progs if q not in progs]
 
     def tree(src, mode=False):
         if (src, mode) not in cache:
@@ -112,6 +150,14 @@ def closer_sweep(chk, repo, it, tier):
             except StopIteration:
                 cache[(src, mode)] = "<raised StopIteration>"
         return cache[(src, mode)]
+    def tail_values(src, mode, k_):
+        it.steps = 0
+        try:
+            ts = list(tokenise(src, mode) if mode else tokenise(src))
+        except (PRaise, StopIteration):
+            return None
+        return [t.d["value"] for t in ts[-k_:]]
+
     n = 0
     bad = None
     for mode in modes:
@@ -120,7 +166,14 @@ def closer_sweep(chk, repo, it, tier):
             while k < len(p) and p[len(p) - 1 - k] in closers:
                 k += 1
             full = tree(p, mode)
+            if p in atom_progs and any(
+                    f"value='{c}'" in full or f'value="{c}"' in full
+                    for c in closers):
+                continue  # a closer left over as an element: not syntax here
             for drop in range(1, k + 1):
+                if p in atom_progs and tail_values(p, mode, drop) != list(
+                        p[-drop:]):
+                    continue  # the last characters are payload, not closers
                 n += 1
                 if tree(p[:-drop], mode) != full:
                     bad = bad or (p + (" [flag V]" if mode else ""),
